@@ -137,10 +137,15 @@ func (r *MemoryModelRegistry) RegisterModels(ctx context.Context, endpointURL st
 	}
 
 	modelsCopy := make([]*domain.ModelInfo, 0, len(models))
+	seen := make(map[string]struct{}, len(models))
 	for _, model := range models {
 		if model == nil {
 			continue // Skip nil models
 		}
+		if _, duplicate := seen[model.Name]; duplicate {
+			continue // a backend listing the same model twice still has it once
+		}
+		seen[model.Name] = struct{}{}
 		modelsCopy = append(modelsCopy, &domain.ModelInfo{
 			Name:        model.Name,
 			Size:        model.Size,
